@@ -175,9 +175,13 @@ Proof.
   assert (Hw : forall s ic ws, words_af c af (read_file c af DEPTH) s ic ws = eval_words c s ic ws).
   { intros s ic ws. unfold words_af, eval_words. destruct (first ws); cbn [bind]; auto.
     apply loop_af_conservative. exact Hno. }
-  assert (Hl : forall ls s, lines_af c af (read_file c af DEPTH) s ls = eval_lines c s ls).
-  { induction ls as [|l r IH]; intros s; cbn [lines_af eval_lines]; auto. rewrite Hw.
-    destruct (eval_words c s true l); cbn [bind]; auto. }
+  assert (Hl : forall ls s, lines_af c af (read_file c af (DEPTH - 1)) s ls = eval_lines c s ls).
+  { induction ls as [|l r IH]; intros s; cbn [lines_af eval_lines]; auto.
+    unfold words_af at 1. fold (eval_words c s true l).
+    assert (E : (do f <- first l; loop_af c af (read_file c af (DEPTH - 1)) (S (words_size l)) s true f)
+                = eval_words c s true l).
+    { unfold eval_words. destruct (first l); cbn [bind]; auto. apply loop_af_conservative. exact Hno. }
+    rewrite E. destruct (eval_words c s true l); cbn [bind]; auto. }
   rewrite Hl. destruct (eval_lines c (init_state c inits) fl) as [s1|?|?]; cbn [bind]; auto.
   destruct env as [ws|]; rewrite ?Hw; [destruct (eval_words c s1 true ws) as [s2|?|?]|]; cbn [bind]; auto;
     rewrite Hw; reflexivity.
